@@ -663,6 +663,14 @@ pub struct DebitWatch {
     frames: Vec<Vec<Debit>>,
     /// surviving debits of the transaction being executed, in execution order
     pub surviving: Vec<(Address, U256)>,
+    /// "twin" mode: when the root frame is about to end successfully, turn that end into a
+    /// top-level REVERT with empty output *after* the last instruction has been charged. Stock revm
+    /// then produces, by its own rules, what "a charged top-level revert that keeps the nonce
+    /// bump, authorisation effects and authorisation refund and discards all other execution
+    /// state" means for this transaction.
+    pub force_root_revert: bool,
+    /// whether the twin mode actually rewrote the end of the root frame
+    pub forced: bool,
 }
 
 impl DebitWatch {
@@ -681,10 +689,23 @@ impl DebitWatch {
     pub fn begin_tx(&mut self) {
         self.frames.clear();
         self.surviving.clear();
+        self.forced = false;
     }
 }
 
 impl<CTX: ContextTr<Journal: JournalTr<State = revm_state::EvmState>>> Inspector<CTX, EthInterpreter> for DebitWatch {
+    fn step_end(&mut self, interp: &mut Interpreter<EthInterpreter>, _context: &mut CTX) {
+        use revm::interpreter::{InstructionResult, InterpreterAction, interpreter_types::LoopControl};
+        if self.force_root_revert && self.frames.len() == 1 {
+            if let Some(InterpreterAction::Return(res)) = interp.bytecode.action() &&
+                res.result.is_ok()
+            {
+                res.result = InstructionResult::Revert;
+                res.output = Bytes::new();
+                self.forced = true;
+            }
+        }
+    }
     fn call(&mut self, context: &mut CTX, inputs: &mut CallInputs) -> Option<CallOutcome> {
         if std::env::var("VERIF_DEBUG").is_ok() {
             eprintln!("  call depth={} {:?} caller={} target={} value={:?} caller_balance={}", self.frames.len(), inputs.scheme, inputs.caller, inputs.target_address, inputs.value, Self::balance(context, inputs.caller));
@@ -741,11 +762,12 @@ fn reserve_family() -> GenParams {
         n_eoa: 4,
         n_con: 3,
         mix: Mix { call: 14, create: 3, selfdestruct: 2, sload: 4, sstore: 4, terminate: 3, slots: 3, vmax: 6_000_000, len: (3, 9), ..Mix::default() },
-        kind_w: [4, 2, 1, 12],
+        kind_w: [4, 2, 3, 12],
         auth_pct: 20,
         pre_delegated: 3,
         hot_sender_pct: 45,
         reserve_shape: true,
+        ctor_calls_origin: true,
         refunder_contract: true,
         invalid_pct: 4,
         basefees: &[7],
@@ -826,9 +848,42 @@ impl Campaign for C13 {
                             break;
                         }
                     }
-                    RuleVerdict::Violated { source, before, future, final_balance } if prague => {
+                    RuleVerdict::Violated { source, before, future, final_balance, twin, pre_nonce } if prague => {
                         first_violation_checked = true;
                         rep.bump("first_reserve_violations_checked", 1);
+                        // what exactly was committed for this transaction
+                        let committed = out.trace.iter().find_map(|r| match &r.ev {
+                            obs::Ev::State { txid, result, delta, .. } if *txid == i => Some((result.clone(), delta.clone())),
+                            _ => None,
+                        });
+                        if let (Some((want_result, want_delta)), Some((got_result, got_delta))) = (twin, &committed) {
+                            rep.bump("reserve_violations_checked_against_forced_revert_twin", 1);
+                            if want_result != got_result {
+                                violations.push(vio(
+                                    "RSV",
+                                    "C13",
+                                    format!("tx {i}: reserve violation by {source}: the charged top-level revert differs from stock revm reverting the same execution at its very end: expected {want_result:?}, committed {got_result:?}"),
+                                ));
+                            } else if let Some(d) = crate::compare::diff_delta(want_delta, got_delta) {
+                                violations.push(vio(
+                                    "RSV",
+                                    "C13",
+                                    format!("tx {i}: reserve violation by {source}: state kept by the charged revert (nonce bump, fee, authorisation effects and refund, reward) differs from stock revm reverting the same execution at its very end: {d}"),
+                                ));
+                            }
+                        } else if let Some((_, got_delta)) = &committed {
+                            // top-level CREATE (code-deposit gas makes the twin inexact): at least the
+                            // sender's nonce bump must survive
+                            let sender = case.txs[i].caller;
+                            rep.bump("reserve_violations_checked_nonce_only", 1);
+                            if got_delta.get(&sender).map(|d| d.nonce) != Some(pre_nonce + 1) {
+                                violations.push(vio(
+                                    "RSV",
+                                    "C13",
+                                    format!("tx {i}: reserve violation: the sender's nonce bump was not kept (nonce before {pre_nonce}, committed {:?})", got_delta.get(&sender).map(|d| d.nonce)),
+                                ));
+                            }
+                        }
                         match got {
                             TxExecutionOutcome::Executed(ExecutionResult::Revert { output, .. }) if output.is_empty() => {}
                             other => violations.push(vio(
@@ -855,7 +910,17 @@ impl Campaign for C13 {
 #[derive(Clone, Debug)]
 enum RuleVerdict {
     Holds,
-    Violated { source: Address, before: U256, future: U256, final_balance: U256 },
+    Violated {
+        source: Address,
+        before: U256,
+        future: U256,
+        final_balance: U256,
+        /// result and state delta of the same transaction on stock revm with its root frame
+        /// turned into a REVERT at its very end (None for top-level creates / frames without code)
+        twin: Option<(ExecutionResult, crate::compare::CanonDelta)>,
+        /// the sender's nonce before the transaction
+        pre_nonce: u64,
+    },
     /// the stock run stops being a valid reference (after the first violation, or skipped tx)
     Unknown,
 }
@@ -905,15 +970,29 @@ fn stock_with_rule(case: &Case, enforce_create_guard: bool) -> (Vec<RuleVerdict>
                         }
                         let final_balance = acc.info.balance;
                         if final_balance < before.min(future) {
-                            verdict = RuleVerdict::Violated { source, before, future, final_balance };
+                            verdict = RuleVerdict::Violated { source, before, future, final_balance, twin: None, pre_nonce: 0 };
                             break;
                         }
                     }
                 } else {
                     verdict = RuleVerdict::Unknown;
                 }
-                if matches!(verdict, RuleVerdict::Violated { .. }) {
+                if let RuleVerdict::Violated { twin, pre_nonce, .. } = &mut verdict {
                     diverged = true;
+                    // sender nonce before this transaction: the finalized state holds nonce + 1
+                    *pre_nonce = ras.state.get(&tx.caller).map(|a| a.info.nonce.saturating_sub(1)).unwrap_or(0);
+                    if !tx.kind.is_create() {
+                        // the twin: same pre-state (nothing of `ras` has been committed), same
+                        // transaction, root frame reverted at its very end
+                        evm.inspector.1.begin_tx();
+                        evm.inspector.1.force_root_revert = true;
+                        if let Ok(ras2) = evm.inspect_tx(tx.clone()) &&
+                            evm.inspector.1.forced
+                        {
+                            *twin = Some((ras2.result.clone(), canon_delta(&ras2.state)));
+                        }
+                        evm.inspector.1.force_root_revert = false;
+                    }
                 }
                 verdicts.push(verdict);
                 deltas.push(Some(canon_delta(&ras.state)));
